@@ -39,8 +39,10 @@ def jobs_for(tier, mir, repo, facts=None):
     facts = facts or {}
     start = facts.get('spawn_start', 0)
     cfg = {'consumer_may_time_out': facts.get('consumer', {}).get('recv', 'blocking') != 'blocking'}
+    ends = facts.get('spawn_end', {})
     for T, N in configs(tier):
-        W = max(T - start, 0)
+        W = max(ends.get(T, T) - start, 0)
+        cfg = dict(cfg, captures=worker_captures(facts['_prog'], repo, T)) if facts.get('_prog') is not None else cfg
         K = 4 * N + 3 * W + N + 1
         extra = {'num_threads': T, 'consumer_timeout_ms': facts.get('consumer', {}).get('timeout_ms')}
         for q in ('witness', 'safety', 'stuck'):
@@ -119,7 +121,10 @@ def custom_main(tier, seed, mir, repo, get_native, procs, prop=PROPERTY):
         facts['consumer'] = consumer_facts(prog, repo, 'pipe')
     except Unsupported as e:
         incon.append(str(e))
-    results = run_jobs(jobs_for(tier, mir, repo, facts), procs)
+    facts['_prog'] = prog
+    jobs = jobs_for(tier, mir, repo, facts)
+    del facts['_prog']
+    results = run_jobs(jobs, procs)
     native = get_native()
     # W = 0: the unthreaded branch of Pipe::new / Pipe::next is interpreted by MIRSE (lazy sequential map)
     seq = run_unthreaded('quick' if tier == 'premise' else tier, mir, repo, native, seed, procs, 'C05', SEQ_CLAIMS)
